@@ -393,6 +393,19 @@ fn content_configs() -> Vec<YuvConfig> {
             }
         }
     }
+    // the specified fields range over ALL their supported values (a shortcut keyed on one transfer
+    // or one primaries value must meet an Unspecified neighbour): four matrices x every supported
+    // primaries + Unspecified x every supported transfer + Unspecified
+    for &m in [MC::Unspecified, MC::BT709, MC::ST170M, MC::BT2020NonConstantLuminance].iter() {
+        for &p in std::iter::once(&CP::Unspecified).chain(SUPPORTED_PRIMARIES.iter()) {
+            for &t in std::iter::once(&TC::Unspecified).chain(SUPPORTED_TRANSFERS.iter()) {
+                let c = cfg_full(8, false, (0, 0), m, t, p);
+                if !v.contains(&c) {
+                    v.push(c);
+                }
+            }
+        }
+    }
     v
 }
 
